@@ -1,6 +1,7 @@
 package main
 
 import (
+	"os"
 	"fmt"
 	"safecheck/relang"
 	"strings"
@@ -389,19 +390,7 @@ func prefixClassByLanguage(p *Program, alt chainAlt) (bool, bool) {
 		}
 		cond = fAnd(cond, ec)
 	}
-	per, ok := splitByParam(cond)
-	if !ok || per[0] == nil {
-		// conditions on the decoded prefix are about a term of their own
-		per2, _ := splitByParam(cond)
-		k := Term{Param: 0, Unesc: true}.Key()
-		if per2[k] == nil {
-			return false, false
-		}
-		per = map[int]*Form{0: per2[k]}
-		prefixClassDecoded = true
-	} else {
-		prefixClassDecoded = false
-	}
+	per, _ := splitByParam(cond)
 	L := NewLang()
 	if err := registerSumm(L, s, cond); err != nil {
 		return false, false
@@ -409,16 +398,31 @@ func prefixClassByLanguage(p *Program, alt chainAlt) (bool, bool) {
 	qf := relang.SetOfString("#?")
 	L.AddSet(qf)
 	L.Build()
-	A, amb, err := L.Eval(per[0])
-	if err != nil || len(amb) > 0 {
-		return false, false
-	}
 	has := relang.ContainsSym(L.A, qf)
-	if ok, _ := relang.Subset(A, has); ok {
-		return true, true
-	}
-	if ok, _ := relang.Disjoint(A, has); ok {
-		return false, true
+	// the conditions on the raw prefix and those on the decoded prefix are about terms of their own
+	for _, cand := range []struct {
+		key     int
+		decoded bool
+	}{{0, false}, {Term{Param: 0, Unesc: true}.Key(), true}} {
+		f := per[cand.key]
+		if f == nil {
+			continue
+		}
+		A, amb, err := L.Eval(f)
+		if os.Getenv("CHAIN_DEBUG") != "" {
+			fmt.Println("prefixClassByLanguage", cand.key, f, "err", err, "amb", amb)
+		}
+		if err != nil || len(amb) > 0 {
+			continue
+		}
+		if ok, _ := relang.Subset(A, has); ok {
+			prefixClassDecoded = cand.decoded
+			return true, true
+		}
+		if ok, _ := relang.Disjoint(A, has); ok {
+			prefixClassDecoded = cand.decoded
+			return false, true
+		}
 	}
 	return false, false
 }
